@@ -30,10 +30,18 @@ Sent(ev) == [ev |-> ev, cyc |-> cycle]
 Init == /\ hs \in HandlerStacks /\ phase = "out" /\ i = 0 /\ cycle = 0 /\ adds = <<>> /\ sd = <<>>
         /\ calls = <<>> /\ sent = <<>>
 
-AddMiddleware(s) ==
-    /\ phase = "out" /\ Len(adds) < MaxAdds
-    /\ hs' = Append(hs, s) /\ adds' = Append(adds, [after |-> cycle, shape |-> s])
+(* add_middleware (and the constructor argument) receives a SEQUENCE of components and appends them in order, "as if
+   they had been appended to the original middleware list"; a single component is the sequence of one.  `call`
+   numbers the add_middleware calls.  The container form of the argument (bare component, list, tuple, generator,
+   iterator, map object, dict view) and cors_enable are environment dimensions this specification is independent
+   of: the harness rotates them under every history. *)
+NCalls == IF adds = <<>> THEN 0 ELSE adds[Len(adds)].call
+AddMiddlewareSeq(ss) ==
+    /\ phase = "out" /\ ss # <<>> /\ Len(adds) + Len(ss) <= MaxAdds
+    /\ hs' = hs \o ss
+    /\ adds' = adds \o [j \in 1..Len(ss) |-> [after |-> cycle, shape |-> ss[j], call |-> NCalls + 1]]
     /\ UNCHANGED <<phase, i, cycle, sd, calls, sent>>
+AddMiddleware(s) == AddMiddlewareSeq(<<s>>)
 
 Enter == /\ phase = "out" /\ cycle < MaxCycles
          /\ cycle' = cycle + 1 /\ phase' = "idle" /\ sd' = Append(sd, FALSE)
